@@ -116,4 +116,54 @@ theorem c13_boot_linear (v w a : ℝ) (x y : List ℝ) (hl : x.length = y.length
 
 
 
+/-- C13 (bootstrap import): when the resampling table has full column rank — no non-zero chain of
+    that length is resampled to zero in every bootstrap sample — the exported samples determine the
+    chain: two chains with the same samples under the same table are equal.  Whatever the import
+    solves for, the original fluctuations are the only candidate. -/
+theorem c13_boot_determined (table : List (List Nat)) (n : Nat)
+    (hrank : ∀ z : List ℝ, z.length = n →
+      (∀ b, b < table.length → (exportBoot 0 z table).getD (b + 1) 0 = 0) → ∀ k, k < n → z.getD k 0 = 0)
+    (v w : ℝ) (x y : List ℝ) (hx : x.length = n) (hy : y.length = n)
+    (h : (exportBoot v x table).drop 1 = (exportBoot w y table).drop 1) : x = y := by
+  have hlin := c13_boot_linear v w (-1) x y (hx.trans hy.symm) table
+  set z := List.zipWith (fun s t => s + -1 * t) x y with hz
+  have hzl : z.length = n := by simp [hz, hx, hy]
+  have hzero : ∀ b, b < table.length → (exportBoot 0 z table).getD (b + 1) 0 = 0 := by
+    intro b hb
+    have e1 : (exportBoot 0 z table).getD (b + 1) 0 = (exportBoot (v + -1 * w) z table).getD (b + 1) 0 := by
+      simp [exportBoot]
+    rw [e1, hlin]
+    have hl1 : (exportBoot v x table).length = table.length + 1 := by simp [exportBoot]
+    have hl2 : (exportBoot w y table).length = table.length + 1 := by simp [exportBoot]
+    simp only [List.getD_eq_getElem?_getD, List.getElem?_zipWith]
+    have g1 : (exportBoot v x table)[b + 1]? = (exportBoot w y table)[b + 1]? := by
+      have := congrArg (fun l => l[b]?) h
+      simpa [Nat.add_comm] using this
+    rw [g1]
+    have hb2 : b + 1 < (exportBoot w y table).length := by omega
+    rw [List.getElem?_eq_getElem hb2]
+    simp
+  have hk := hrank z hzl hzero
+  apply List.ext_getElem (hx.trans hy.symm)
+  intro k h1 h2
+  have := hk k (by omega)
+  rw [hz, List.getD_eq_getElem?_getD, List.getElem?_zipWith, List.getElem?_eq_getElem h1, List.getElem?_eq_getElem h2] at this
+  simp at this
+  linarith
+
+/-- the rank hypothesis is satisfiable: the table that resamples configuration 0 twice, then 1 twice -/
+example : ∀ z : List ℝ, z.length = 2 →
+    (∀ b, b < [[0, 0], [1, 1]].length → (exportBoot 0 z [[0, 0], [1, 1]]).getD (b + 1) 0 = 0) →
+    ∀ k, k < 2 → z.getD k 0 = 0 := by
+  intro z hz h k hk
+  match z, hz with
+  | [a, b], _ =>
+    have h0 := h 0 (by decide)
+    have h1 := h 1 (by decide)
+    simp [exportBoot, ofNatS_eq, sum_eq] at h0 h1
+    subst h0 h1
+    match k, hk with
+    | 0, _ => rfl
+    | 1, _ => rfl
+
 end PV
